@@ -34,7 +34,7 @@ type wrongType struct{ X int }
 // heapVars: the original is a heap object referenced only by the variable; GC is in their alphabet
 var heapVars = map[string]bool{"vHeapMap": true, "vHeapPtr": true, "vHeapSlice": true, "vHeapIface": true}
 
-var ifaceVars = map[string]bool{"vINil": true, "vI7": true, "vErr": true, "vHeapIface": true}
+var ifaceVars = map[string]bool{"vINil": true, "vI7": true, "vErr": true, "vHeapIface": true, "vErrTNil": true, "vITNil": true}
 
 var errA, errB, errC = errors.New("a"), errors.New("b"), errors.New("c")
 
@@ -58,6 +58,8 @@ func specs() []varSpec {
 		{"vNilPtr", vars.PNilPtr(), vars.GNilPtr, [3]interface{}{p1, p2, p3}, func() *vars.S { return p3 }, true},
 		{"vNilMap", vars.PNilMap(), vars.GNilMap, [3]interface{}{m1, m2, m3}, func() map[string]int { return m3 }, true},
 		{"vU8", vars.PU8(), vars.GU8, [3]interface{}{uint8(1), uint8(255), uint8(0)}, func() uint8 { return 0 }, true},
+		{"vErrTNil", vars.PErrTNil(), vars.GErrTNil, [3]interface{}{errA, errB, errC}, func() error { return errC }, false},
+		{"vITNil", vars.PITNil(), vars.GITNil, [3]interface{}{1, "two", 3.5}, func() interface{} { return 3.5 }, false},
 		{"vHeapMap", vars.PHeapMap(), vars.GHeapMap, [3]interface{}{m1, m2, m3}, func() map[string]int { return m3 }, true},
 		{"vHeapPtr", vars.PHeapPtr(), vars.GHeapPtr, [3]interface{}{p1, p2, p3}, func() *vars.S { return p3 }, true},
 		{"vHeapSlice", vars.PHeapSlice(), vars.GHeapSlice, [3]interface{}{[]int{1}, []int{2, 2}, []int(nil)}, func() []int { return nil }, true},
@@ -445,6 +447,13 @@ func Run(c *vk.Ctx) {
 							})
 							g, _ := run(sp, byName, min)
 							mc := Case{sp.name, byName, opsToStrings(min)}
+							if g == "" {
+								// not reproducible from a fresh start: the failure needs state left behind by earlier
+								// histories of this process (a process-wide cache, say); report it as observed
+								mc = cs
+								g = f + " (this history conforms when nothing ran before it: the failure depends on state left in the library by earlier histories of the process, all of which ended with the variable restored)"
+								cls += "-after-earlier-histories"
+							}
 							c.Violate(fmt.Sprintf("var=%s by_name=%v ops=%s class=%s", sp.name, byName, strings.Join(mc.Ops, ","), cls), g, mc)
 						}
 					}
@@ -530,7 +539,7 @@ func content(v interface{}) (out string) {
 		return fmt.Sprintf("map%v", parts)
 	case reflect.Ptr:
 		if rv.IsNil() {
-			return "nilptr"
+			return fmt.Sprintf("nil %T", v)
 		}
 		return fmt.Sprintf("&%+v", rv.Elem().Interface())
 	}
